@@ -34,7 +34,10 @@ def close_case(draw, tier="quick"):
             "yields": draw(st.integers(0, 3)),
             # things an application may do on the way: stop one transceiver, start a second negotiation round
             "extras": draw(st.lists(st.tuples(st.sampled_from(["stop-transceiver", "reoffer", "reoffer", "peer-goes-away"]), st.integers(1, 6), st.integers(0, 1)).map(list),
-                                    max_size=2))}
+                                    max_size=2)),
+            # a quarter of the cases over a path whose datagram send suspends (TURN relay): more interleavings inside
+            # every coroutine that sends
+            "yield_send": draw(st.sampled_from([False, False, False, True]))}
 
 
 class Scenario:
@@ -317,7 +320,7 @@ class Scenario:
 def run_close(case: dict) -> Outcome:
     sc = Scenario(case)
     try:
-        run_pc_sim(sc.main, max_iterations=3_000_000, cpu_seconds=60)
+        run_pc_sim(sc.main, max_iterations=3_000_000, cpu_seconds=60, yield_send=bool(case.get("yield_send")))
     except vloop.CpuBudgetExceeded:
         return Outcome(f"a busy loop: 60 s of CPU without the scenario finishing (close() started in state {sc.close_started_state})",
                        "busy-loop", True, tuple(sorted(sc.classes)))
@@ -328,6 +331,8 @@ def run_close(case: dict) -> Outcome:
     started = sc.close_started_state.get(case.get("side", 0) % 2)
     if started:
         classes.add("at-signaling=" + started[0])
+    if case.get("yield_send"):
+        classes.add("yielding-send")
         classes.add("at-connection=" + started[1])
         if started[3]:
             classes.add("during=" + started[3])
